@@ -71,7 +71,10 @@ TrInit == l = 1 /\ bad = <<>>
 TrNext == /\ l <= Len(Rec)
           /\ l' = l + 1
           /\ LET e == Rec[l]
-                 why == IF e.ev = "canon" THEN CanonWhy(e) ELSE IF e.ev = "dup" THEN DupWhy(e) ELSE RewriteWhy(e)
+                 why == IF e.ev = "canon" THEN CanonWhy(e) ELSE IF e.ev = "dup" THEN DupWhy(e)
+                        \* a key-based update of the canonical object (value of a present key replaced, absent key added)
+                        \* left a repeated key: the object was not "fully queryable by key afterwards"
+                        ELSE IF e.ev = "mutfail" THEN "queries" ELSE RewriteWhy(e)
              IN bad' = IF why = "" THEN bad ELSE Append(bad, <<l, why>>)
 TrSpec == TrInit /\ [][TrNext]_vars
 Done == l = Len(Rec) + 1
